@@ -14,7 +14,7 @@ def handle (j : Json) : R Json := do
     pure (Json.mkObj [("ok", Json.bool true), ("str", Json.str (String.ofList t.print)),
       ("nroot", Json.bool (NRoot t)), ("excluded", Json.bool (Excluded t)), ("printable", Json.bool (Printable t)),
       ("ellList", Json.bool (anyNode patEllList t)), ("ellEll", Json.bool (anyNode patEllEll t)),
-      ("flatConcat", Json.bool (anyNode patFlatConcat t)), ("numInBr", Json.bool (numInBr false t)),
+      ("flatConcat", Json.bool (anyNode patFlatConcat t)),
       ("adjSpaces", Json.bool (hasAdjSpaces (textsL t.ptree)))])
 
 end Einx.Driver.NotationNF
